@@ -474,6 +474,89 @@ fn history_case(ctor: usize, c0: i64, seq: &[usize], e: &mut Eng) -> u64 {
     n as u64
 }
 
+/// Extreme clock values: every step whose specified arithmetic (t - now, now + offset) fits in i64
+/// must work; steps that would overflow by specification end the case.
+fn history_extreme_clocks(e: &mut Eng) {
+    #[derive(Clone, Copy, Debug)]
+    enum X {
+        SetTime(i64),
+        SetDelta(i64),
+        Get,
+    }
+    let ops = [X::SetTime(-5), X::SetTime(5), X::SetTime(0), X::SetDelta(0), X::SetDelta(7), X::SetDelta(-7), X::Get];
+    for &c0 in &[i64::MIN, i64::MIN + 1, -1, i64::MAX - 1, i64::MAX] {
+        for ctor in [0usize, 3] {
+            let total = ipow(ops.len() as u64, 3);
+            let mut idx = [0usize; 3];
+            for code in 0..total {
+                decode(code, ops.len() as u64, &mut idx);
+                e.executions += 1;
+                e.states += 1;
+                e.nontrivial += 1;
+                let mut offset: i64 = if ctor == 0 { 0 } else { -12 };
+                // model first: find the longest prefix whose specified arithmetic does not overflow
+                let mut expected: Vec<Option<Obs>> = Vec::new();
+                let mut valid = 0;
+                for &i in &idx {
+                    match ops[i] {
+                        X::SetTime(t) => match t.checked_sub(c0) {
+                            Some(o) => {
+                                offset = o;
+                                expected.push(None);
+                            }
+                            None => break,
+                        },
+                        X::SetDelta(d) => {
+                            offset = d;
+                            expected.push(None);
+                        }
+                        X::Get => match c0.checked_add(offset) {
+                            Some(q) => expected.push(Some(if q < 0 { Obs::NONE } else { Obs { tag: 1, time: c0, bits: [(q as f32).to_bits(), 0, 0, 0] } })),
+                            None => break,
+                        },
+                    }
+                    valid += 1;
+                }
+                let seq: Vec<X> = idx[..valid].iter().map(|&i| ops[i]).collect();
+                let r = guard(|| {
+                    let mut hist = Echo { updates: 0 };
+                    let clock = rc(ScrTime::new(Ok(Time(c0))));
+                    let mut g: GetterFromHistory<i64, ScrTime, E> = if ctor == 0 { GetterFromHistory::new_no_delta(&mut hist, rf(&clock)) } else { GetterFromHistory::new_custom_delta(&mut hist, rf(&clock), Time(-12)) };
+                    let mut out = Vec::new();
+                    for op in &seq {
+                        match op {
+                            X::SetTime(t) => {
+                                out.push((obs_unit(&g.set_time(Time(*t))), None));
+                            }
+                            X::SetDelta(d) => {
+                                g.set_delta(Time(*d));
+                                out.push((0, None));
+                            }
+                            X::Get => out.push((0, Some(obs(&g.get().map(|o| o.map(|d| Datum::new(d.time, d.value as f32))))))),
+                        }
+                    }
+                    out
+                });
+                e.transitions += valid as u64;
+                e.checks += 1;
+                match r {
+                    Err(m) => e.violation("history-adapter:extreme-clock:panic", valid, || format!("{} with the clock at {} then {:?}: panicked ({}) although every specified step fits in i64", CTORS[ctor], c0, seq, m)),
+                    Ok(out) => {
+                        e.outcome(h64(&(c0, ctor, &out)));
+                        for (k, (res, got)) in out.iter().enumerate() {
+                            if *res != 0 || (got.is_some() && *got != expected[k]) {
+                                e.violation("history-adapter:extreme-clock:value", k + 1, || format!("{} with the clock at {} then {:?}: step {} gave result {} get {:?}, expected {:?}", CTORS[ctor], c0, seq, k, res, got.map(|o| o.show()), expected[k].map(|o| o.show())));
+                                break;
+                            }
+                        }
+                    }
+                }
+            }
+        }
+    }
+    e.sample(|| "new_no_delta with the clock at i64::MIN then set_time(-5), get -> history(-5) is absent; set_time(5)... overflow by specification ends the case".to_string());
+}
+
 fn time_getters(e: &mut Eng) {
     for t in [i64::MIN, -5, 0, 7, i64::MAX] {
         for cat in 0..4 {
@@ -594,6 +677,8 @@ pub fn run(ctx: &Ctx) -> Vec<Eng> {
         }
         e2.bounds.push_str("; plus all 40-operation sequences within 2 deviations of `get`");
     }
+    history_extreme_clocks(&mut e2);
+    e2.bounds.push_str("; plus clocks at i64::MIN, MIN+1, -1, MAX-1, MAX x 2 constructors x all 7^3 sequences of set_time/set_delta/get (steps that overflow by specification end the case)");
     history_case(4, 3, &[], &mut e2);
     e2.executions += 1;
     let mut e3 = Eng::new(
